@@ -135,6 +135,18 @@ func (e *Env) hostileStrings(newGroup func(*c03group) int, emit func(c03exp)) {
 						emit(c03exp{s: join(w[n-c:]), lang: lang, class: "count-change-head", group: -1})
 					}
 				}
+				// a valid shorter sentence followed by unknown tokens up to the next valid count
+				for _, k := range []int{12, 15, 18, 21} {
+					if k >= n {
+						break
+					}
+					// (w[:k] is generally not valid; build a valid k-word sentence instead)
+					short := sentence(r, lang, ref.EntSizes[(k-12)/3], 0)
+					t := append(append([]string(nil), short...), "qzx", "qzy", "qzz")
+					emit(c03exp{s: join(t), lang: lang, class: "valid-sentence-plus-three-unknown-tokens", group: -1})
+					t2 := append(append([]string(nil), short...), w[0], w[1], w[2])
+					emit(c03exp{s: join(t2), lang: lang, class: "valid-sentence-plus-three-list-words", group: -1})
+				}
 				dup := append(append([]string(nil), w...), w...)
 				emit(c03exp{s: join(dup), lang: lang, class: "doubled-sentence", group: -1})
 				// E. words of other lists
